@@ -1643,6 +1643,9 @@ class Cell(Bucket):
 
             if app.blacklisted:
                 _LOGGER.info('App %s is blacklisted', app.name)
+                # The app may have lost its server outside of the cycle
+                # (server removed or reloaded) and still hold identity.
+                app.release_identity()
                 continue
 
             if app.final_rank == _UNPLACED_RANK:
@@ -1650,8 +1653,8 @@ class Cell(Bucket):
                     assert app.server in servers
                     assert app.has_identity()
                     servers[app.server].remove(app.name)
-                    app.release_identity()
 
+                app.release_identity()
                 continue
 
             restore = {}
